@@ -214,7 +214,7 @@ func (i *Inst) RunTeardown(s *TdScript, tw *TraceWriter, rng *rand.Rand) error {
 	}
 	hostClosed := true
 	if hadHost {
-		hostClosed = bc.WaitClosed(left()) != ""
+		hostClosed = bc.WaitClosed(left()) != "" && bc.FullyClosed(left())
 	}
 	// client-facing connections the client did not close itself must be closed by the gateway
 	connsClosed := true
